@@ -116,6 +116,8 @@ def replay_chunk(entries, table, sels, seed, thorough):
         orig = np.array([conc(c) for c in chis], dtype=float)
         n0 = len(chis)
         for i in range(nsel):
+            if nd == 0 and sels[i]['f'] in ('E', 'F'):
+                continue            # per-datapoint criteria of a source WITHOUT a fitted point divide by zero: outside the property
             for with_fluxes in ((True, False) if (i % 7 == 0) else (True,)):
                 info = make_info(chis, nd, with_fluxes)
                 src_before = info.source.__getstate__()
@@ -153,6 +155,8 @@ def replay_chunk(entries, table, sels, seed, thorough):
                     raise MachineryError('prefix vector not enumerated: %r' % (pk,))
                 pcnt = table[pk][1]
                 for j in js:
+                    if nd == 0 and sels[j]['f'] in ('E', 'F'):
+                        continue
                     info2 = make_info(chis, nd, True)
                     info2.keep(csel[i])
                     try:
@@ -226,7 +230,7 @@ def record_traces(ctx, n_traces, max_len):
         chis = sorted([rand_value(rng) for _ in range(n)], key=sort_key)
         if rng.random() < 0.3 and n > 2:   # force ties
             chis[1] = dict(chis[0])
-        nd = rng.choice([1, 1, 2, 3, 4, 5, 6, 0])
+        nd = rng.choice([1, 1, 2, 3, 4, 5, 6])          # (n_data = 0 makes E/F divide by zero: outside the property)
         with_fluxes = rng.random() < 0.7
         info = make_info(chis, nd, with_fluxes)
         orig = np.array([conc(c) for c in chis], dtype=float)
